@@ -88,7 +88,15 @@ func (n NodeSet) String() string {
 		return ""
 	}
 
-	return GetCursorString(n[0])
+	first := n[0]
+
+	for _, i := range n[1:] {
+		if i.Pos() < first.Pos() {
+			first = i
+		}
+	}
+
+	return GetCursorString(first)
 }
 
 func (n NodeSet) Number() float64 {
